@@ -6,6 +6,8 @@
          revert, run the demo (must pass);
       2. apply the patch to /repo, run ./check <ID> (and extra IDs) in the quick tier, revert;
       3. store patch, demo and meta.json under /verif/seeded/<ID>-<mN>/ and append to seeded/RESULTS.md.
+  run_seeded.py also <name> <ID> [<ID> ...]
+      run further checks against a stored change and record the outcome.
   run_seeded.py rerun [<name> ...]
       re-run the quick checks for stored changes and rewrite RESULTS.md.
 """
@@ -32,6 +34,12 @@ def suite(root):
 def demo_cmd(demo):
     if os.environ.get("DEMO_CMD"):
         return os.environ["DEMO_CMD"] + " 2>&1 || exit 1"
+    cmdf = os.path.join(demo, "CMD")
+    if os.path.exists(cmdf):
+        c = open(cmdf).read().strip().splitlines()
+        c = [l for l in c if l.strip() and not l.strip().startswith("#")]
+        if c and "cd " not in c[-1]:
+            return c[-1] + " 2>&1 || exit 1"
     return "go test -vet=off -count=1 ./... 2>&1 || exit 1" if any(f.endswith("_test.go") for f in os.listdir(demo)) else "go run . "
 
 def run_checks(patch, ids, tier="quick"):
@@ -129,5 +137,12 @@ if __name__ == "__main__":
         sys.exit(do_import(sys.argv[2], sys.argv[3], sys.argv[4], sys.argv[5:]))
     elif sys.argv[1] == "rerun":
         do_rerun(sys.argv[2:])
+    elif sys.argv[1] == "also":
+        # also <name> <ID...>: run further checks against a stored change and record them
+        d = os.path.join(SEEDED, sys.argv[2]); mp = os.path.join(d, "meta.json"); m = json.load(open(mp))
+        m.setdefault("verif_checks", {}).update(run_checks(os.path.join(d, "patch.diff"), sys.argv[3:]))
+        json.dump(m, open(mp, "w"), indent=1, ensure_ascii=False)
+        print(sys.argv[2], {k: v.get("exit") for k, v in m["verif_checks"].items() if isinstance(v, dict)})
+        write_results()
     elif sys.argv[1] == "results":
         write_results()
